@@ -194,7 +194,7 @@ pub fn families(prop: &str, tier: Tier) -> Vec<Family> {
             if q {
                 f.push(Family { stateless_depth: 0, name: "mode-graphs-3".into(), cfgs: mode_graphs(3, &lists[..3], 997), inputs: inputs(&['a', 'b', 'x'], 3), ops: ops.clone(), describe: "3 modes x 3 pattern lists each x every 997th of the 64^3 transition tables (a fixed arithmetic sub-sequence, enumerated completely)".into() });
             } else {
-                f.push(Family { stateless_depth: 0, name: "mode-graphs-3".into(), cfgs: mode_graphs(3, &lists[..3], 31), inputs: inputs(&['a', 'b', 'x'], 4), ops: ops.clone(), describe: "3 modes x 3 pattern lists each x every 31st of the 64^3 transition tables".into() });
+                f.push(Family { stateless_depth: 0, name: "mode-graphs-3".into(), cfgs: mode_graphs(3, &lists[..3], 97), inputs: inputs(&['a', 'b', 'x'], 4), ops: ops.clone(), describe: "3 modes x 3 pattern lists each x every 97th of the 64^3 transition tables".into() });
             }
             // the same through the WithPositions adapter (it forwards set_mode/current_mode/mode_name)
             f.push(Family {
